@@ -10,7 +10,7 @@ Violation codes (stable; the check plugin and known-finding keys use them):
   meta-*            a metadata block breaks the 8 KiB / compressed-smaller / only-last-short rules
   table-*           a lookup table does not have the block count / size its entry count requires
   inode-*           inode table: scan, numbering 1..N, id/xattr/fragment references, modes
-  data-*, frag-*    data and fragment blocks: size rules, location inside the data area
+  data-*, frag-*    data and fragment blocks: size rules, location inside the data area, partial overlaps
   dir-*             listings: sorting, 256 entries, names, index entries
   entry-*, parent, nlink-*, export-*   cross references
   xattr-*           key/value area
@@ -308,6 +308,12 @@ def validate (d : Description) (devblk : Nat := 4096) : V × Stats := Id.run do
       vs := vio vs "super-flag-uncompressed" s!"flag 'Fragments are stored uncompressed' set but fragment block {fi} is compressed"
     fragLen := fragLen.push ul
     fi := fi + 1
+  -- every stored block extent (offset, stored size, owner) for the overlap check below
+  let mut extents : Array (Nat × Nat × String) := #[]
+  fi := 0
+  for f in P.frags do
+    if blkStored f.size != 0 then extents := extents.push (f.start, blkStored f.size, s!"fragment block {fi}")
+    fi := fi + 1
   -- inode table: linear scan
   let (inodes, serr) := scanInodes P.inodes.data bs (P.inodes.data.size + 1) 0 #[]
   match serr with
@@ -353,6 +359,7 @@ def validate (d : Description) (devblk : Nat := 4096) : V × Stats := Id.run do
         else
           let (v, s, _) := checkDataBlock dm vs st s!"{w} block {k}" loc bw (if last then tail else bs) last dataStart sb.inodeTable "data"
           vs := v; st := s
+          extents := extents.push (loc, blkStored bw, s!"{w} block {k}")
           if sb.hasFlag 0x0002 && !blkUncompressed bw then
             vs := vio vs "super-flag-uncompressed" s!"flag 'Data blocks are stored uncompressed' set but {w} block {k} is compressed"
         loc := loc + blkStored bw
@@ -365,6 +372,22 @@ def validate (d : Description) (devblk : Nat := 4096) : V × Stats := Id.run do
             if foff + tail > ul then vs := vio vs "inode-fragment-range" s!"{w}: tail [{foff},{foff + tail}) outside fragment block {fidx} of {ul} bytes"
           | _ => pure ()
           if foff + tail > bs then vs := vio vs "inode-fragment-range" s!"{w}: tail [{foff},{foff + tail}) exceeds the block size"
+  -- "The on-disk locations of file blocks MAY overlap" only as whole shared blocks (deduplication): two extents that
+  -- intersect without being the same (offset, size) mean a block list that runs into somebody else's data
+  let sorted := extents.qsort (fun a b => a.1 < b.1 || (a.1 == b.1 && a.2.1 < b.2.1))
+  let mut cur : Option (Nat × Nat × String) := none
+  let mut noverlap := 0
+  for e in sorted do
+    match cur with
+    | none => cur := some e
+    | some c =>
+      if e.1 == c.1 && e.2.1 == c.2.1 then pure ()
+      else if e.1 < c.1 + c.2.1 then
+        noverlap := noverlap + 1
+        if noverlap ≤ 8 then
+          vs := vio vs "data-overlap" s!"{e.2.2} at [{e.1},{e.1 + e.2.1}) overlaps {c.2.2} at [{c.1},{c.1 + c.2.1}) without being the same block"
+        if e.1 + e.2.1 > c.1 + c.2.1 then cur := some e
+      else cur := some e
   if inodes.size == sb.inodeCount then
     for k in [1:sb.inodeCount + 1] do
       if !seenIno.contains k then
